@@ -2,6 +2,8 @@
 
 package sarama
 
+import "time"
+
 // C02 P-sys: per-partition submission order survives retries, leader moves and disconnects.
 func verifHarness_C02_sysFaults() {
 	r := vRunProducer(vProdScenario(0))
@@ -43,5 +45,129 @@ func verifHarness_C02_sysWaitForSpace() {
 	r := vRunProducer(c)
 	r.assertC02()
 	r.assertC01()
+	vReach()
+}
+
+// ---------- P-step on the partition producer's retry state machine ----------
+
+// a stand-in for one brokerProducer: what the real one does to the order of one partition's
+// messages. Messages are taken into a pending list (buffer + in-flight request); a response
+// either acknowledges the oldest or refuses everything pending, after which every message that
+// arrives is bounced until the partition producer's fin marker has come by (currentRetries).
+type vBPModel struct {
+	in       chan *ProducerMessage
+	retrying bool
+	pending  []*ProducerMessage
+}
+
+// verifHarness_C02_stepPartitionProducer drives the real partitionProducer.dispatch goroutine
+// (retry levels, high watermark, fin/chaser markers, per-level retry buffers, flushRetryBuffers,
+// leader re-selection) between a feeder and model brokerProducers. n messages are submitted in
+// order; the brokers refuse pending messages up to 2 (3) times at arbitrary moments, so
+// messages bounced twice, once and not at all are around at the same time; fresh input and the
+// retry path merge in every possible order. Whatever happens, the messages reach the log in
+// submission order.
+func verifHarness_C02_stepPartitionProducer() {
+	vConfig("delay", 0)
+	n := 4
+	rejectsLeft := 2
+	if vTier() > 0 {
+		n, rejectsLeft = 5, 3
+	}
+	conf := NewConfig()
+	conf.Producer.Retry.Max = 4
+	conf.Producer.Retry.Backoff = 0
+	conf.ChannelBufferSize = 0
+	cl := vNewCluster(conf, 1, 1, 0)
+	client := &vFakeClient{conf: conf, cl: cl}
+	p := &asyncProducer{client: client, conf: conf, brokers: map[*Broker]*brokerProducer{}, brokerRefs: map[*brokerProducer]int{},
+		txnmgr: &transactionManager{producerID: noProducerID, producerEpoch: noProducerEpoch}}
+	var bps []*vBPModel
+	vOverride("(*asyncProducer).getBrokerProducer", func(p *asyncProducer, b *Broker) *brokerProducer {
+		m := &vBPModel{in: make(chan *ProducerMessage, 64)}
+		bps = append(bps, m)
+		return &brokerProducer{parent: p, broker: b, input: m.in}
+	})
+	vOverride("(*asyncProducer).unrefBrokerProducer", func(p *asyncProducer, b *Broker, bp *brokerProducer) {})
+	input := p.newPartitionProducer("t", 0)
+	var retryQ []*ProducerMessage
+	var log []int
+	bounce := func(m *ProducerMessage) {
+		m.retries++
+		retryQ = append(retryQ, m)
+	}
+	// a model broker takes what the partition producer sent it (eagerly: taking later changes
+	// nothing about the order, since a refusal bounces pending and later messages alike)
+	drain := func() {
+		<-time.After(time.Millisecond) // the partition producer finishes what it is doing
+		for _, b := range bps {
+			for len(b.in) > 0 {
+				m := <-b.in
+				switch {
+				case m.flags&syn == syn:
+					b.retrying = false
+				case b.retrying:
+					bounce(m)
+					if m.flags&fin == fin {
+						b.retrying = false
+					}
+				case m.flags&fin == fin:
+					bounce(m)
+				default:
+					b.pending = append(b.pending, m)
+				}
+			}
+		}
+	}
+	next := 0
+	for steps := 0; len(log) < n; steps++ {
+		vAssume(steps < 40)
+		// enabled actions: 0 feed fresh, 1 feed from the retry path, 2+k broker k answers
+		var enabled []int
+		if next < n {
+			enabled = append(enabled, 0)
+		}
+		if len(retryQ) > 0 {
+			enabled = append(enabled, 1)
+		}
+		for k, b := range bps {
+			if len(b.pending) > 0 {
+				enabled = append(enabled, 2+k)
+			}
+		}
+		vAssert(len(enabled) > 0, "pipeline-not-stuck")
+		if len(enabled) == 0 {
+			return
+		}
+		act := enabled[vChoose("action", len(enabled))]
+		switch act {
+		case 0:
+			input <- &ProducerMessage{Topic: "t", Partition: 0, Metadata: next}
+			next++
+			drain()
+		case 1:
+			m := retryQ[0]
+			retryQ = retryQ[1:]
+			input <- m
+			drain()
+		default:
+			b := bps[act-2]
+			if rejectsLeft > 0 && vChoose("refuse", 2) == 1 {
+				rejectsLeft--
+				for _, m := range b.pending {
+					bounce(m)
+				}
+				b.pending = nil
+				b.retrying = true
+			} else {
+				log = append(log, b.pending[0].Metadata.(int))
+				b.pending = b.pending[1:]
+			}
+		}
+	}
+	for i := range log {
+		vAssert(log[i] == i, "log-in-submission-order")
+	}
+	vCover("two-levels-deep", rejectsLeft == 0)
 	vReach()
 }
